@@ -47,6 +47,7 @@ type InstrReport struct {
 	RangesSkipped   []string `json:"ranges_skipped,omitempty"`
 	ImportsShimmed  int      `json:"imports_shimmed"`
 	ClosesRewritten int      `json:"closes_rewritten"`
+	GoStarts        int      `json:"go_statements_given_a_start_point"`
 	Files           []string `json:"files"`
 }
 
@@ -70,7 +71,7 @@ func instrument(repo string, rw Rewrite, outDir string, rep *InstrReport) (map[s
 	// cache key: content of all files + options
 	h := sha256.New()
 	sharedLoopVars := loopVarsShared(repo)
-	fmt.Fprintf(h, "v5|%s|%v|%v|%v|%v\n", rw.Dir, rw.VRange, rw.Shim, rw.Files, sharedLoopVars)
+	fmt.Fprintf(h, "v7|%s|%v|%v|%v|%v\n", rw.Dir, rw.VRange, rw.Shim, rw.Files, sharedLoopVars)
 	srcs := map[string][]byte{}
 	for _, n := range names {
 		b, err := os.ReadFile(filepath.Join(dir, n))
@@ -92,6 +93,7 @@ func instrument(repo string, rw Rewrite, outDir string, rep *InstrReport) (map[s
 			rep.RangesSkipped = append(rep.RangesSkipped, cached.RangesSkipped...)
 			rep.ImportsShimmed += cached.ImportsShimmed
 			rep.ClosesRewritten += cached.ClosesRewritten
+			rep.GoStarts += cached.GoStarts
 			for _, f := range cached.Files {
 				rep.Files = append(rep.Files, f)
 				overlay[filepath.Join(dir, filepath.Base(f))] = filepath.Join(cacheDir, filepath.Base(f))
@@ -184,6 +186,20 @@ func instrument(repo string, rw Rewrite, outDir string, rep *InstrReport) (map[s
 						local.ClosesRewritten++
 					}
 				}
+			case *ast.GoStmt:
+				// `go func() { ... }()`: the new goroutine's first act is a scheduling point, so that the order
+				// "spawner goes on / new goroutine starts" is the explorer's choice (default: the spawner goes
+				// on) instead of the runtime's.  Only the literal-without-parameters form is touched: nothing
+				// about argument evaluation changes.
+				if !rw.Shim {
+					return true
+				}
+				if fl, ok := x.Call.Fun.(*ast.FuncLit); ok && len(x.Call.Args) == 0 && (fl.Type.Params == nil || len(fl.Type.Params.List) == 0) {
+					at := off(fl.Body.Lbrace) + 1
+					edits = append(edits, edit{at, at, " vsyncx.Start();"})
+					needVsyncx = true
+					local.GoStarts++
+				}
 			case *ast.RangeStmt:
 				if !rw.VRange {
 					return true
@@ -269,8 +285,10 @@ func instrument(repo string, rw Rewrite, outDir string, rep *InstrReport) (map[s
 		for _, e := range edits {
 			out = append(out[:e.start], append([]byte(e.text), out[e.end:]...)...)
 		}
-		// keep line numbers readable in stack traces
-		out = append([]byte("//line "+filepath.Join(dir, name)+":1\n"), out...)
+		// No //line directive: with one at the top of a file the compiler (go1.23) no longer finds the file's
+		// language version and compiles it with the newest semantics - per-iteration loop variables - whatever
+		// the module's go directive says.  That silently repaired captured-loop-variable bugs in every
+		// instrumented package (found through a seeded change that the harness could not reproduce).
 		if err := os.WriteFile(filepath.Join(tmp, name), out, 0o644); err != nil {
 			return nil, err
 		}
@@ -290,6 +308,7 @@ func instrument(repo string, rw Rewrite, outDir string, rep *InstrReport) (map[s
 	rep.RangesSkipped = append(rep.RangesSkipped, local.RangesSkipped...)
 	rep.ImportsShimmed += local.ImportsShimmed
 	rep.ClosesRewritten += local.ClosesRewritten
+	rep.GoStarts += local.GoStarts
 	rep.Files = append(rep.Files, local.Files...)
 	return overlay, nil
 }
